@@ -85,7 +85,7 @@ def run_stateful(ctx, profiles, monitor, proj, rule, trusted, corpus=(), extra_f
     scns = []
     if ctx.replay:
         rp = json.load(open(ctx.replay))
-        sc = T.Scn("replay")
+        sc = T.Scn(rp["replay"]["head"][0].split()[1])
         sc.head = rp["replay"]["head"]
         sc.ops = [tuple(o) for o in rp["replay"]["ops"]]
         scns = [sc]
